@@ -60,6 +60,13 @@ def run(eng: Engine, ck: Check):
         muts = [c for st in lp.body for c in calls_in(st) if call_name(c) in ('remove', 'pop', 'append', 'insert', 'clear', 'extend')
                 and mentions_attr(c.func.value, '_expected_response_futures')]
         dels = [n for st in lp.body for n in ast.walk(st) if isinstance(n, ast.Delete) and mentions_attr(n, '_expected_response_futures')]
+        # ... also through a function that mutates the list (the done-callback `_remove_response_future` called by hand, or anything that calls it)
+        mutators = {f_ for f_, _c in eng.mutations_of_attr('_expected_response_futures', ['remove', 'pop', 'append', 'insert', 'clear', 'extend'])}
+        for _ in range(2):
+            for f_ in list(repo.all_funcs()):
+                if f_ not in mutators and f_.module.rel == NET and any(cal in mutators for x_ in calls_in(f_.node) for cal in eng.res.callees(x_, f_)):
+                    mutators.add(f_)
+        muts += [c for st in lp.body for c in calls_in(st) if any(cal in mutators for cal in eng.res.callees(c, omr))]
         ck.ob('R-C12-ITER', omr, lp, 'the list of pending requests is not modified while it is being iterated '
               '(removing during iteration skips the next waiter)', not ((muts or dels) and direct),
               f'loop over `{unparse(lp.iter)}` contains `{unparse((muts + dels)[0])[:60]}`' if (muts or dels) else '',
@@ -147,7 +154,22 @@ def run(eng: Engine, ck: Check):
     ok = len(loops) == 1 and loops == floops
     ck.ob('R-C12-MATCH', m, m.node, 'matches() iterates all expected fields', ok, '', construct='matches iterates fields')
     trues = [n for n in walk_local(m.node) if isinstance(n, ast.Return) and const(n.value) is True]
-    ok = len(trues) == 1 and not any(isinstance(a, (ast.For, ast.If)) for a in ancestors(trues[0]) if a is not m.node)
+    ok = len(trues) == 1 and not any(isinstance(a, (ast.For, ast.While)) for a in ancestors(trues[0]) if a is not m.node)
+    if ok:
+        # every condition on the way to `return True` is the negation of a rejecting test, and the field loop has been passed
+        rej = {(unparse(e), pol) for e, pol, r in flat}
+        def negates_reject(e, pol) -> bool:
+            if (unparse(e), not pol) in rej:
+                return True
+            # `not (x and y and z)`: the rejecting `if x and y and z: return False` was not taken
+            if isinstance(e, ast.BoolOp) and isinstance(e.op, ast.And) and not pol:
+                return all(any((unparse(a_), p_) in rej for a_, p_ in split_conj(v_, True)) for v_ in e.values)
+            return False
+        ok = all(negates_reject(e, pol) for e, pol, _ in expanded_guards(eng, m, trues[0]))
+        if ok and len(floops) == 1:
+            cm = eng.cfg(m)
+            tn, ln = cm.nodes_for(trues[0]), cm.nodes_for(floops[0])
+            ok = cm.find_path([cm.entry], lambda n: n in tn, avoid=lambda n: n in ln) is None
     ck.ob('R-C12-MATCH', m, m.node, 'matches() returns True only after every test passed (single `return True` at the end)', ok,
           f'{len(trues)} return True statements', construct='matches returns True last')
     early = [n for lp in loops for st in lp.body for n in ast.walk(st) if isinstance(n, ast.Return) and const(n.value) is not False]
